@@ -159,12 +159,15 @@ func (m *Manager) trySyncNextBlock(ctx context.Context, daHeight uint64) error {
 			return fmt.Errorf("failed to apply block: %w", err)
 		}
 
-		if err = m.updateState(ctx, newState); err != nil {
-			return fmt.Errorf("failed to save updated state: %w", err)
-		}
-
+		// The block is persisted before the state that refers to it: if the process dies in between,
+		// the node restarts from the previous state and applies the block again. The other order would
+		// leave a state (and, after restart, a chain height) for which no block is stored.
 		if err = m.store.SaveBlockData(ctx, h, d, &h.Signature); err != nil {
 			return fmt.Errorf("failed to save block: %w", err)
+		}
+
+		if err = m.updateState(ctx, newState); err != nil {
+			return fmt.Errorf("failed to save updated state: %w", err)
 		}
 
 		// Height gets updated
